@@ -1,26 +1,30 @@
 #!/bin/bash
 # Regenerates the harness go.mod/go.sum from the repository's go.mod.
 # usage: gomod.sh <repo> <outdir>
-set -e
+# Safe for concurrent invocations (unique temp file, atomic rename, rewrite
+# only when the generated content changed).
 REPO=${1:-/repo}
 OUT=${2:-/verif/harness}
-mkdir -p "$OUT"
+mkdir -p "$OUT" || exit 1
+TMP=$(mktemp "$OUT/.go.mod.XXXXXX") || exit 1
 {
   echo "module verif"
   echo
   grep -E '^go [0-9]' "$REPO/go.mod"
   echo
-  # all require blocks and replace lines of the repository
   awk '/^require \(/{p=1} p{print} /^\)/{p=0}' "$REPO/go.mod"
-  grep -E '^replace ' "$REPO/go.mod" || true
-  grep -E '^require [^(]' "$REPO/go.mod" || true
+  grep -E '^replace ' "$REPO/go.mod"
+  grep -E '^require [^(]' "$REPO/go.mod"
   echo "replace github.com/buildbarn/bb-storage => $REPO"
   echo "require github.com/buildbarn/bb-storage v0.0.0"
   echo "require github.com/anishathalye/porcupine v1.3.0"
-} > "$OUT/go.mod.tmp"
-if ! cmp -s "$OUT/go.mod.tmp" "$OUT/go.mod.gen" 2>/dev/null; then
-  cp "$OUT/go.mod.tmp" "$OUT/go.mod.gen"
-  cp "$OUT/go.mod.tmp" "$OUT/go.mod"
-  cp "$REPO/go.sum" "$OUT/go.sum"
+} > "$TMP"
+if [ ! -s "$TMP" ]; then rm -f "$TMP"; exit 1; fi
+if ! cmp -s "$TMP" "$OUT/go.mod.gen" 2>/dev/null || [ ! -f "$OUT/go.mod" ] || [ ! -f "$OUT/go.sum" ]; then
+  cp "$REPO/go.sum" "$OUT/go.sum.tmp.$$" && mv "$OUT/go.sum.tmp.$$" "$OUT/go.sum"
+  cp "$TMP" "$OUT/go.mod.tmp.$$" && mv "$OUT/go.mod.tmp.$$" "$OUT/go.mod"
+  mv "$TMP" "$OUT/go.mod.gen"
+else
+  rm -f "$TMP"
 fi
-rm -f "$OUT/go.mod.tmp"
+exit 0
